@@ -57,13 +57,14 @@ package sample
 //@   nopanic[C05]
 //@   requires rand != nil && group != nil
 //@   panic_unreachable_under_requires
-//@   modifies nothing
+//@   modifies hstate(rand)
 //@   allocates
 //@   ensures result != nil
 
 //@ func ScalarPointPair
 //@   nopanic[C05]
 //@   requires rand != nil && group != nil
-//@   modifies nothing
+//@   modifies hstate(rand)
 //@   allocates
 //@   ensures result0 != nil && result1 != nil
+//@   ensures scval(result0) == sc_from(old(hstate(rand))) && hstate(rand) == hadv(old(hstate(rand))) && ptval(result1) == act(scval(result0), gen())
